@@ -453,8 +453,34 @@ def array_over_column(target):
     return spec, {'inputs': inputs, 'formulas': formulas, 'order': inputs + members + ['Sheet1!F1', 'Sheet1!F2']}
 
 
+def unbounded_onto_named_sheets():
+    """whole columns / rows of sheets whose names begin with the characters of the wrapper which the saved text puts
+    around a resolved range (=_REF_("...")), end with them, or need quotes"""
+    names = ['Revenue', 'Expenses', 'FY 2024', '_data', 'REF', 'F', 'E=R', 'Rate)', 'q"F']
+    sheets = [['Sheet1', {}]]
+    formulas, inputs, order = {}, [], []
+    for k, n in enumerate(names):
+        sheets.append([n, {'A1': k + 1, 'A2': 10 * (k + 1), 'B1': 100 * (k + 1)}])
+        q = wb.quote_sheet(n)
+        ins = [f'{n}!A1', f'{n}!A2', f'{n}!B1']
+        inputs += ins
+        sheets[0][1][f'A{k + 1}'] = f'=SUM({q}!A:A)'
+        sheets[0][1][f'B{k + 1}'] = f'=SUM({q}!1:1)+A{k + 1}'
+        formulas[f'Sheet1!A{k + 1}'] = {'form': 'unbounded', 'deps': ins[:2]}
+        formulas[f'Sheet1!B{k + 1}'] = {'form': 'unbounded', 'deps': ins}
+        order += [f'Sheet1!A{k + 1}', f'Sheet1!B{k + 1}']
+    spec = {'sheets': sheets, 'names': {}, 'arrays': [], 'calc': None}
+    return spec, {'inputs': inputs, 'formulas': formulas, 'order': inputs + order}, names
+
+
 def directed(ctx):
     """the two text classes recorded as known findings, reproduced on every run"""
+    spec, meta, names = unbounded_onto_named_sheets()
+    for fmt in ('yml', 'json', 'pkl'):
+        ops = [['eval', a] for a in meta['order'] if a.startswith('Sheet1!')]
+        ops += [['set', f'{n}!A2', 7] for n in names] + [['eval', a] for a in meta['order'] if a.startswith('Sheet1!')]
+        one_round_trip(ctx, spec, meta, fmt, 'same', None, ops, [], 1)
+        ctx.count('directed:unbounded-onto-named-sheets')
     for fmt in ('yml', 'json', 'pkl'):
         for target in ('A1:A3', 'G1:G3'):
             spec, meta = array_over_column(target)
